@@ -1,6 +1,7 @@
 """C16 - layout analysis is symbolic: enumeration monitor, generator, emitter."""
 import copy
 import os
+import signal
 import time
 import gallina as G
 import tygen
@@ -11,6 +12,8 @@ COQ_IMPORTS = "From PV Require Import Util.ListSet BLS.Model BLS.Cost Check.C16.
 CASE_TYPE = "C16.case"
 CHECK_FN = "C16.check_case"
 SHARD = 40
+PAR_MIN = 4
+SHRINK_BUDGET_S = 60
 SWEEP = [2, 2 ** 4, 2 ** 8, 2 ** 16, 2 ** 32, 2 ** 63]
 RULE = ("a case is one random composite definition (nesting depth 1-4, sub-byte and byte-aligned elements, delimited members) written as "
         "DSDL files, instantiated with every capacity/extent scale of the sweep 2**1, 2**4, 2**8, 2**16, 2**32, 2**63 for its marked "
@@ -97,6 +100,17 @@ def generate(rng, tier):
 
 
 # ----------------------------------------------------------------------------------------------------------------
+
+
+CEILING_S = 10  # >= 50x the slowest instance measured on the unchanged tree (~0.1-0.4 s): only a change of complexity class trips it
+
+
+class InstanceTimeout(BaseException):
+    pass
+
+
+def _on_alarm(_sig, _frm):
+    raise InstanceTimeout()
 
 
 class Monitor:
@@ -211,7 +225,10 @@ def run_impl(cases):
             t = instantiate(case["type"], cap)
             d = Path(tempfile.mkdtemp(dir=scratch))
             mon = Monitor()
+            timed_out = False
             started = time.monotonic()
+            signal.signal(signal.SIGALRM, _on_alarm)
+            signal.alarm(CEILING_S)
             try:
                 for rel, txt in tygen.definition_files(t).items():
                     p = d / rel
@@ -226,14 +243,21 @@ def run_impl(cases):
                         _ = off.is_aligned_at_byte()
                     if not (a == b) or hash(a) != hash(b):
                         fail = "two readings of the same definition are not equal / hash differently"
+            except InstanceTimeout:
+                timed_out = True
+                fail = "instance with capacity scale %d did not finish within %d s" % (cap, CEILING_S)
             except Exception as ex:  # pylint: disable=broad-except
                 fail = "unexpected %s: %s" % (type(ex).__name__, str(ex)[:200])
             finally:
+                signal.alarm(0)
                 mon.close()
                 shutil.rmtree(d, ignore_errors=True)
             elapsed = time.monotonic() - started
-            if elapsed > 10.0:
+            if elapsed > CEILING_S - 1 and not timed_out:
                 fail = "instance with capacity scale %d took %.1f s" % (cap, elapsed)
+            if timed_out:
+                variants.append({"cap": cap, "total": 0, "expands": mon.expands, "calls": [], "elapsed": round(elapsed, 3)})
+                break
             variants.append({"cap": cap, "total": mon.total, "expands": mon.expands, "calls": mon.calls, "elapsed": round(elapsed, 3)})
         ob = {"variants": variants}
         # totals must not depend on the capacity scale once it exceeds twice the largest divisor in use (64)
